@@ -1,6 +1,7 @@
 import OomdProofs.Hook
 import OomdProps.C13
 import OomdProps.C16
+import OomdProofs.EngineDeadline
 
 /-!
 # C07 — Prekill hooks: one hook per victim, finished or timed out before the kill
@@ -341,5 +342,55 @@ example : (trace hcfg [tin, tinRecreated, tinRecreated]
      .poll 0 true, .destroy 0, .ret .cont,
      .now 150 false, .fire 1 14 "w/a" 1, .poll 1 true, .destroy 1, .attempt 14 "w/a" [] false,
      .now 0 false, .fire 0 12 "w/b" 2, .poll 2 true, .destroy 2, .attempt 12 "w/b" [] true, .ret .stop] := by decide
+
+/-! ### where the deadline comes from: the ruleset's `prekill_hook_timeout`, also in per-cgroup instances
+
+The hook model above takes the deadline of a kill cycle as given (`dl`).  It is fixed by the ruleset when the chain starts:
+the reading right after the check of the first group that fires, plus the ruleset's `prekill_hook_timeout`.  A per-cgroup
+instance of a ruleset-cgroup ruleset is run by the same `runOnceImpl` with the template's configuration, so its chains carry
+the template's time-out (the real instances are held to this by the `percg` pass of this check, clause
+`C07.percg_deadline_is_fire_plus_ruleset_timeout`). -/
+
+open OomdModel.Engine in
+/-- **Deadline of a fresh chain.**  Every action of a run that starts a new chain sees the deadline
+`fireTime + prekill_hook_timeout` of its ruleset, whatever the detectors and earlier actions of that run did to the clock. -/
+theorem fresh_chain_deadline (inv : Bool) (cfg : RsCfg) (sc : Script) (st : RsState) (now ctr : Nat)
+    (hact : st.active = none) (a t : Nat) (c : Ctx) (iv : Bool)
+    (he : Ev.act a t c iv ∈ (rsRun inv cfg sc st now ctr).2.1) :
+    some c.deadline = (fireTime sc cfg.groups now).map (· + cfg.hookTimeout) :=
+  rsRun_fresh_deadline inv cfg sc st now ctr hact a t c iv he
+
+open OomdModel.Engine OomdModel.RsCgroup in
+/-- **... in a per-cgroup instance too**: the instance for cgroup `p`, new or carried over, with no chain suspended, starts
+its chain with the deadline `fireTime + cfg.rs.hookTimeout` - the time-out configured on the ruleset, not a default. -/
+theorem percg_fresh_chain_deadline (F : Fixes) (cfg : Cfg) (p : Path) (oi : Option Inst) (sc : Script) (now ctr g : Nat)
+    (hact : ∀ i, oi = some i → i.st.active = none) (gen a t : Nat) (c : Ctx) (iv : Bool)
+    (he : CEv.run p gen (Ev.act a t c iv) ∈ (instVisit F cfg p oi sc now ctr g).evs) :
+    some c.deadline = (fireTime sc cfg.rs.groups now).map (· + cfg.rs.hookTimeout) := by
+  simp only [instVisit, List.mem_append, List.mem_map] at he
+  have hst : (match oi with | some i => i | none => ({ gen := g, st := {} } : Inst)).st.active = none := by
+    cases oi with
+    | none => rfl
+    | some i => exact hact i rfl
+  rcases he with he | ⟨e, he, heq⟩
+  · -- creation events are inits and preruns, never runs
+    exfalso
+    cases oi with
+    | some _ => simp at he
+    | none =>
+      have := createEvs_nonrun cfg p g _ he
+      simp [isRun] at this
+  · injection heq with _ _ h3
+    subst h3
+    exact rsRun_fresh_deadline F.invOnResume cfg.rs sc _ now ctr hst a t c iv he
+
+/-- non-vacuity: time-out 30 s, the group fires at 1000 s + 2 s of detector time: deadline 1032 s -/
+example :
+    let cfg : OomdModel.Engine.RsCfg := { rid := 0, groups := [{ gid := 0, dets := [0] }], actions := [1], delay := 15, hookTimeout := 30 }
+    let sc : OomdModel.Engine.Script := fun i => if i = 0 then { adv := 2 } else {}
+    OomdModel.Engine.fireTime sc cfg.groups 1000 = some 1002 ∧
+      (OomdModel.Engine.rsRun true cfg sc {} 1000 7).2.1 =
+        [OomdModel.Engine.Ev.det 0 1000, OomdModel.Engine.Ev.act 1 1002 { ruleset := 0, group := 0, uuid := 7, deadline := 1032 } true] := by
+  decide
 
 end C07
